@@ -301,3 +301,51 @@ pub proof fn lemma_sub1_index(s: Seq<u8>)
     requires s.len() >= 1
     ensures forall|k: int| 0 <= k < s.len() - 1 ==> #[trigger] s.subrange(1, s.len() as int)[k] == s[k + 1]
 {}
+
+// ---- slice::split(|c| *c == sep): lazily yields the maximal sep-free pieces, including empty ones (rule R25)
+pub open spec fn first_sep(s: Seq<u8>, sep: u8, from: int) -> int
+    decreases s.len() - from
+{
+    if from >= s.len() { s.len() as int } else if s[from] == sep { from } else { first_sep(s, sep, from + 1) }
+}
+pub proof fn lemma_first_sep(s: Seq<u8>, sep: u8, from: int)
+    requires 0 <= from <= s.len()
+    ensures from <= first_sep(s, sep, from) <= s.len(),
+            forall|k: int| from <= k < first_sep(s, sep, from) ==> #[trigger] s[k] != sep,
+            first_sep(s, sep, from) < s.len() ==> s[first_sep(s, sep, from)] == sep
+    decreases s.len() - from
+{
+    if from < s.len() && s[from] != sep { lemma_first_sep(s, sep, from + 1); }
+}
+pub struct VxSplit<'a> { pub s: &'a [u8], pub sep: u8, pub pos: usize, pub done: bool }
+impl<'a> VxSplit<'a> {
+    pub open spec fn wf(&self) -> bool { self.pos <= self.s.len() }
+    pub fn new(s: &'a [u8], sep: u8) -> (r: Self)
+        ensures r.wf(), r.s == s, r.sep == sep, r.pos == 0, !r.done
+    { VxSplit { s, sep, pos: 0, done: false } }
+    pub fn next(&mut self) -> (r: Option<&'a [u8]>)
+        requires old(self).wf()
+        ensures
+            final(self).wf(), final(self).s == old(self).s, final(self).sep == old(self).sep,
+            old(self).done ==> r.is_none() && final(self).done && final(self).pos == old(self).pos,
+            !old(self).done ==> ({
+                let e = first_sep(old(self).s@, old(self).sep, old(self).pos as int);
+                &&& r matches Some(p) && p@ == old(self).s@.subrange(old(self).pos as int, e)
+                &&& (e < old(self).s.len() ==> final(self).pos == e + 1 && !final(self).done)
+                &&& (e == old(self).s.len() ==> final(self).pos == e && final(self).done)
+            }),
+    {
+        if self.done { return None; }
+        let start = self.pos;
+        let mut i = self.pos;
+        proof { lemma_first_sep(self.s@, self.sep, start as int); }
+        while i < self.s.len() && self.s[i] != self.sep
+            invariant start <= i <= self.s.len(), self.pos == start, self.wf(),
+                first_sep(self.s@, self.sep, i as int) == first_sep(self.s@, self.sep, start as int),
+            decreases self.s.len() - i
+        { i += 1; }
+        if i < self.s.len() { self.pos = i + 1; } else { self.pos = i; self.done = true; }
+        let piece = &self.s[start..i];
+        Some(piece)
+    }
+}
